@@ -63,7 +63,7 @@ def check(I, inst, results, args):
         if I.entailed(st, atom):
             n_true += 1
             ok_side = all(I.entailed(st, s_) for s_ in side)
-            ok_cov = eqg.covered(st, ra, a, rb, b, n)
+            ok_cov = eqg.covered(st, ra, a, rb, b, n, I)
             I.ob('EQ-TRUE', fr, inst.loc, f'{name}: true => lengths fit and every byte of the range was compared equal', ok_side and ok_cov,
                  '' if ok_side and ok_cov else f"side conditions {'hold' if ok_side else 'NOT entailed'}; compared-equal interval {eqg.get(st, *eqg._orient(st, ra, a, rb, b)[0::2])} "
                  f"does not cover [{st.store.nf(a)}, +{st.store.nf(n)})")
